@@ -138,6 +138,8 @@ def task_forcebias(arg):
         with warnings.catch_warnings():
             warnings.simplefilter("ignore")
             sim = ForceBias(atoms, delta, temperature=T, seed=1)
+        if arg.get("custom_masses"):  # displacement-scaling masses set through the public method
+            sim.update_masses(np.array([[5.0, 5.0, 5.0], [80.0, 80.0, 80.0], [20.0, 20.0, 20.0]]))
         x0, com0 = atoms.positions.copy(), atoms.get_center_of_mass()
         counters["executions"] += 1
         try:
@@ -223,7 +225,7 @@ def run(tier, seed):
     sp = specs(tier)
     for r in pmap(__name__, "task", sp):
         acc.add(r)
-    fb = [{"constraint": c, "delta": d, "T": T, "steps": 2 if tier == "quick" else 3} for c in ("fix:0", "fix:1,2", "fixcom") for d in (0.05, 0.5) for T in (300.0, 3000.0)]
+    fb = [{"constraint": c, "delta": d, "T": T, "steps": 2 if tier == "quick" else 3, "custom_masses": cm} for c in ("fix:0", "fix:1,2", "fixcom") for d in (0.05, 0.5) for T in (300.0, 3000.0) for cm in (False, True)]
     for r in pmap(__name__, "task_forcebias", fb):
         acc.add(r)
     fr = [{"n": 3, "part": i, "parts": 8} for i in range(8)] + [{"n": 4, "part": i, "parts": 32 if tier == "quick" else 8} for i in range(8)]
